@@ -412,8 +412,8 @@ func c16JudgeA(tb vt.TB, c *c16ACase) c16Verdict {
 		c16SrvMu.Lock()
 		c16SrvBody = gz
 		c16SrvMu.Unlock()
-		oldTmp, hadTmp := os.LookupEnv("TMPDIR")
-		os.Setenv("TMPDIR", filepath.Join(box.root, "tmp"))
+		home := filepath.Join(box.root, "home")
+		restore := c16Setenv(map[string]string{"TMPDIR": filepath.Join(box.root, "tmp"), "HELM_CACHE_HOME": home, "HELM_CONFIG_HOME": home, "HELM_DATA_HOME": home, "HELM_PLUGINS": ""})
 		st := cli.New()
 		st.RepositoryConfig = filepath.Join(box.root, "home", "repositories.yaml")
 		st.RepositoryCache = filepath.Join(box.root, "home", "cache")
@@ -427,11 +427,7 @@ func c16JudgeA(tb vt.TB, c *c16ACase) c16Verdict {
 			lbl["pull-untar"] = true
 		}
 		err = c16Call(func() error { _, e := p.Run(srv.URL + c.URLPath); return e })
-		if hadTmp {
-			os.Setenv("TMPDIR", oldTmp)
-		} else {
-			os.Unsetenv("TMPDIR")
-		}
+		restore()
 	default:
 		tb.Fatalf("c16: unknown target %q", c.Target)
 	}
@@ -1161,14 +1157,14 @@ func c16GenB(t *rapid.T) *c16BCase {
 		}
 		c.Entries = append(c.Entries, c16BEntry{Kind: kind, Size: size})
 	}
-	switch rapid.IntRange(0, 9).Draw(t, "tail") {
+	switch rapid.IntRange(0, 15).Draw(t, "tail") {
 	case 0, 1:
 		c.Tail = "huge"
 	case 2:
 		c.Tail = "huge-pax"
 	case 3:
 		c.Tail = "huge-sparse"
-	case 4, 5:
+	case 4, 5, 7:
 		c.Tail = "small"
 		c.TailSize = 1 + c.FileLimit/int64(rapid.SampledFrom([]int{1, 2, 5}).Draw(t, "tailDiv"))
 		if c.TailSize > c.FileLimit {
@@ -1411,8 +1407,8 @@ func c16GenC(t *rapid.T) *c16CCase {
 	for i, n := 0, rapid.IntRange(0, 3).Draw(t, "ndeps"); i < n; i++ {
 		c.Deps = append(c.Deps, c16CDep{
 			Name:       fmt.Sprintf("dep%d", i),
-			Constraint: rapid.SampledFrom([]string{"^1.0.0", "^1.0.0", "1.2.3", ">=1.0.0", "*", "^3.0.0", "~1.2"}).Draw(t, "constraint"),
-			Version:    rapid.SampledFrom([]string{"1.0.0", "1.2.3", "1.2.9", "2.0.0"}).Draw(t, "version"),
+			Constraint: rapid.SampledFrom([]string{"^1.0.0", "*", ">=1.0.0", "*", ">=1.0.0", "^1.0.0", "~1.2", "1.2.3", "^3.0.0"}).Draw(t, "constraint"),
+			Version:    rapid.SampledFrom([]string{"1.2.3", "1.2.3", "1.0.0", "1.2.9", "2.0.0"}).Draw(t, "version"),
 		})
 	}
 	if rapid.IntRange(0, 7).Draw(t, "plant") > 0 {
